@@ -223,6 +223,7 @@ func TestC17(t *testing.T) {
 		}
 	}
 	var lastGen *gen
+	var probes [][2]string
 	executions := 0
 	for hi := 0; hi < nHist; hi++ {
 		hseed := seed*1000 + int64(hi)
@@ -230,6 +231,7 @@ func TestC17(t *testing.T) {
 		g := newGen(hseed, out)
 		g.run()
 		lastGen = g
+		probes = append(probes, g.probes...)
 		ref := []string{fmt.Sprintf("h=0 apphash=%x", g.c.InitResp.AppHash)}
 		okBlocks := 0
 		for _, o := range g.obs {
@@ -308,6 +310,12 @@ func TestC17(t *testing.T) {
 	out.Stats.Extra["children_per_history"] = nChild
 	out.Stats.Extra["histories"] = nHist
 
+	// UpdateProposalOracles: the real keeper (on a branch of each history's state) against the machine model
+	out.Reset("models-updateoracles")
+	for _, pr := range probes {
+		out.Emit(pr[0], pr[1])
+		out.Nontrivial("updateoracles:" + pr[1][:min(len(pr[1]), 12)])
+	}
 	modelOps(t, out, seed, lastGen)
 }
 
@@ -443,5 +451,44 @@ func modelOps(t *testing.T, out *hx.Out, seed int64, g *gen) {
 		out.Emit("batchfees "+strings.Join(entries, ";"), ref)
 		out.Count("batchfees")
 		out.Nontrivial(fmt.Sprintf("batchfees:%d", nTok))
+		// the same pool with a per-token limit and base fees: now the STORE ORDER of the pool matters (which transactions
+		// are counted), so the op line carries the pool in iteration order
+		var ordered []string
+		k.IterateUnbatchedTransactions(ctx, "", func(tx *crosschaintypes.OutgoingTransferTx) bool {
+			ordered = append(ordered, fmt.Sprintf("%s:%s:%s", tx.Fee.Contract, tx.Fee.Amount.String(), tx.Token.Amount.String()))
+			return false
+		})
+		for sub := 0; sub < 3; sub++ {
+			maxEl := uint(1 + rng.Intn(6))
+			if sub == 2 {
+				maxEl = uint(len(ordered) + rng.Intn(3))
+			}
+			var mins []crosschaintypes.MinBatchFee
+			var base []string
+			for _, tok := range toks {
+				if rng.Intn(3) == 0 {
+					bf := int64(rng.Intn(1100))
+					mins = append(mins, crosschaintypes.MinBatchFee{TokenContract: tok, BaseFee: sdkmath.NewInt(bf)})
+					base = append(base, fmt.Sprintf("%s:%d", tok, bf))
+				}
+			}
+			bs := "-"
+			if len(base) > 0 {
+				bs = strings.Join(base, ",")
+			}
+			pool := "-"
+			if len(ordered) > 0 {
+				pool = strings.Join(ordered, ";")
+			}
+			refMax := render(k.GetAllBatchFees(ctx, maxEl, mins))
+			for r := 0; r < 10; r++ {
+				if again := render(k.GetAllBatchFees(ctx, maxEl, mins)); again != refMax {
+					out.Violate(fmt.Sprintf("nondeterminism: GetAllBatchFees(maxElements=%d, %d base fees) returns different slices for repeated calls on the same pool", maxEl, len(mins)))
+					break
+				}
+			}
+			out.Emit(fmt.Sprintf("batchfeesmax %d %s %s", maxEl, bs, pool), refMax)
+			out.Count("batchfeesmax")
+		}
 	}
 }
